@@ -97,7 +97,8 @@ def factor_sweep(H, chk, tier, universe, snippet, ask):
             return [(1.0, 0.5), (2.0, -1.25), (3.0, 7.0), (100.5, 0.0)]
         return [1.0, 2.0, 3.0, 1.25, 100.5, 0.5]
 
-    def one(d, isq, a, name, kclass, call, fq, fk, vals, mroute):
+    def one(d, isq, a, name, kclass, call, fq, fk, vals, mroute, oq=Fraction(0), ok=None):
+        sfx = f"|offset={ok}" if ok else ""
         setup = H.arr_setup(vals[:1] if isq else vals, d, a, isq)
         R = H.Run(setup, call)
         shape = "quantity" if isq else "array"
@@ -116,10 +117,10 @@ def factor_sweep(H, chk, tier, universe, snippet, ask):
         else:
             obs = ("err", H.exc_class(R.exc))
         if fk.startswith("npfloat") or fk == "pyfloat":
-            ask(["c17.froute", fk, mroute, d.kind, d.itemsize, 1 if isq else 0], ("route", name, d.name, shape, a, obs))
+            ask(["c17.foroute" if ok else "c17.froute", fk, mroute, d.kind, d.itemsize, 1 if isq else 0], ("route", name, d.name, shape, a, obs))
         if not R.ok:
             if not H.may_raise(d):
-                chk.fail(f"dtype|{kclass}|{cls}|{H.exc_class(R.exc)}", f"{name} on {d.name} {shape} ({a}, factor {fk}) raised {H.exc_class(R.exc)}; {ed.name} data required",
+                chk.fail(f"dtype|{kclass}|{cls}|{H.exc_class(R.exc)}{sfx}", f"{name} on {d.name} {shape} ({a}, factor {fk}) raised {H.exc_class(R.exc)}; {ed.name} data required",
                          {"python": snippet(setup, call + "assert True\n"), "dtype": d.name, "route": name, "error": repr(R.exc)[:200]})
             return None
         if type(R.r) in (float, complex):
@@ -131,7 +132,7 @@ def factor_sweep(H, chk, tier, universe, snippet, ask):
         else:
             got = np.asarray(R.r)
             if got.dtype != ed:
-                chk.fail(f"dtype|{kclass}|{cls}|{got.dtype.name}", f"{name} on {d.name} {shape} in {a} (conversion factor of type {fk}) returned {got.dtype.name}; {ed.name} required",
+                chk.fail(f"dtype|{kclass}|{cls}|{got.dtype.name}{sfx}", f"{name} on {d.name} {shape} in {a} (conversion factor of type {fk}{', offset of type ' + ok if ok else ''}) returned {got.dtype.name}; {ed.name} required",
                          {"python": snippet(setup, call + f"assert np.asarray(r).dtype == np.dtype('{ed.name}'), np.asarray(r).dtype\n"),
                           "dtype": d.name, "route": name, "got": got.dtype.name, "want": ed.name, "factor_type": fk})
             if got.dtype.kind not in "fc":
@@ -142,18 +143,18 @@ def factor_sweep(H, chk, tier, universe, snippet, ask):
             size = 8
         xin = H.elems(R.x_before)
         g = H.elems(got)
-        want = [(re * fq, im * fq) for re, im in xin]
-        sel = [i for i in range(len(want)) if H.in_range(fq, size) and g[i] is not None and all(H.in_range(c, size) for c in want[i]) and H.in_range(xin[i][0], size)]
+        want = [(re * fq - oq, im * fq) for re, im in xin]
+        sel = [i for i in range(len(want)) if H.in_range(fq, size) and H.in_range(oq, size) and g[i] is not None and all(H.in_range(c, size) for c in want[i]) and H.in_range(xin[i][0], size)]
         if len(sel) < len(want):
             chk.count("value-out-of-float-range-skipped", len(want) - len(sel))
         if sel:
             chk.count("value-checked", len(sel))
-            scales = [abs(want[i][0]) + abs(want[i][1]) for i in sel]
+            scales = [abs(xin[i][0] * fq) + abs(xin[i][1] * fq) + abs(oq) for i in sel]
             if not H.value_check([g[i] for i in sel], [want[i] for i in sel], size, scales):
                 w = [want[i] for i in sel]
                 wsrc = "[" + ", ".join(f"(Fraction({p.numerator},{p.denominator}), Fraction({q.numerator},{q.denominator}))" for p, q in w) + "]"
                 ssrc = "[" + ", ".join(f"Fraction({p.numerator},{p.denominator})" for p in scales) + "]"
-                chk.fail(f"value|{kclass}|{cls}", f"{name} on {d.name} {shape} ({a}, factor type {fk}): values are not the exact conversion rounded to {ed.name}",
+                chk.fail(f"value|{kclass}|{cls}{sfx}", f"{name} on {d.name} {shape} ({a}, factor type {fk}{sfx}): values are not the exact conversion rounded to {ed.name}",
                          {"python": snippet(setup, call + f"sel = {sel!r}\nrr = np.atleast_1d(np.asarray(r)).ravel()[sel]\nassert _close(rr, {wsrc}, {H.VPREC[size]}, {ssrc}), rr\n"),
                           "dtype": d.name, "route": name, "got": str(got)})
         return R
@@ -258,3 +259,81 @@ def factor_sweep(H, chk, tier, universe, snippet, ask):
                         ("convert_to_base", "inplace", "convert_to_base", f"x.convert_to_base('{sysname}'); r = x\n"),
                     ]:
                         one(d, isq, a, name, kclass, call, fq, fk, values(d, f), mroute)
+
+    # ---- conversions with a truthy offset (temperatures, lat/lon): the offset has the Python type of the
+    # ratio; `np.subtract(ret, offset, ret)` keeps the dtype, `ret = ret - offset` promotes with a strong offset
+    offset_units = sorted((s_ for s_, v in lut.items() if v[2] != 0), key=lambda s_: (len(s_), s_))
+    if quick:
+        offset_units = offset_units[:4] + offset_units[4:][:: max(1, len(offset_units[4:]) // 2)][:2]
+    for a in offset_units:
+        dim = str(lut[a][1])
+        same = [s_ for s_ in by_dim.get(dim, []) if s_ != a]
+        tg = [s_ for s_ in same if s_ in special]
+        plain = [s_ for s_ in same if s_ not in special and lut[s_][2] == 0]
+        try:
+            tg.append(str(Unit(a).get_base_equivalent("mks")))
+        except Exception:  # noqa: BLE001
+            pass
+        if plain and not quick:
+            tg.append(rng.choice(plain))
+        jobs = []
+        for b in dict.fromkeys(tg):
+            jobs.append((a, b, None))
+            jobs.append((b, a, None))
+        for sysname in sorted(k for k in unit_system_registry if isinstance(k, str)):
+            jobs.append((a, None, sysname))
+        for (x0, b, sysname) in jobs:
+            try:
+                ux = Unit(x0)
+                tgt = Unit(b) if b is not None else ux.get_base_equivalent(sysname)
+                if str(ux) != x0:
+                    continue
+                f, o = ux.get_conversion_factor(tgt, np.dtype("f8"))
+            except Exception:  # noqa: BLE001
+                continue
+            if not o:
+                continue
+            fk, ok = base_kind(f), base_kind(o)
+            ask(["c17.foffsetkind", fk], ("fkind", "offset-kind", f"{x0}->{b or sysname}", ok))
+            fq, oq = Fraction(float(f)), Fraction(float(o))
+            if b is not None:
+                routes = [("to", "copy", "to", f"r = x.to('{b}')\n"),
+                          ("to_value", "to_value", "to_value", f"r = x.to_value('{b}')\n"),
+                          ("convert_to_units", "inplace", "convert_to_units", f"x.convert_to_units('{b}'); r = x\n")]
+            else:
+                routes = [("in_base", "in_base", "in_base", f"r = x.in_base('{sysname}')\n"),
+                          ("convert_to_base", "inplace", "convert_to_base", f"x.convert_to_base('{sysname}'); r = x\n")]
+            for d in (narrow if quick else scope):
+                vals = values(d, f)
+                for isq in (False, True):
+                    if isq and quick and d.kind != "f":
+                        continue
+                    res = {}
+                    for (name, kclass, mroute, call) in routes:
+                        R = one(d, isq, x0, name, kclass, call, fq, fk, vals, mroute, oq=oq, ok=ok)
+                        if R is not None and type(R.r) not in (float, complex):
+                            res[kclass] = R
+                    cp = "copy" if b is not None else "in_base"
+                    if cp in res and "inplace" in res and not H.may_raise(d):
+                        r1, r2 = np.asarray(res[cp].r), np.asarray(res["inplace"].r)
+                        if r1.dtype != r2.dtype:
+                            setup = H.arr_setup(vals[:1] if isq else vals, d, x0, isq)
+                            c1 = f"r1 = x.to('{b}'); x.convert_to_units('{b}')\n" if b is not None else f"r1 = x.in_base('{sysname}'); x.convert_to_base('{sysname}')\n"
+                            chk.fail(f"agree|copy-inplace|{H.dclass(d)}|offset={ok}", f"{routes[0][0]} and {routes[-1][0]} disagree on the dtype for {d.name} ({x0}->{b or sysname}, offset of type {ok}): {r1.dtype.name} vs {r2.dtype.name}",
+                                     {"python": snippet(setup, c1 + "assert r1.dtype == x.dtype, (r1.dtype, x.dtype)\n"), "offset_type": ok})
+                # bit-exact value path with the offset step
+                if isinstance(d, np.dtype) and H.comp_size(H.expected_dtype(d)) <= 8 and fk != "pyint":
+                    vals2 = values(d, f) + ([0.1, 3.3, 250.0] if d.kind == "f" else [])
+                    setup = H.arr_setup(vals2, d, x0, False)
+                    for (name, kclass, mroute, call) in routes:
+                        if kclass == "to_value":
+                            continue
+                        R = H.Run(setup, call)
+                        if not R.ok:
+                            continue
+                        out = np.asarray(R.r).ravel()
+                        mr = {"copy": "copy", "in_base": "inbase", "inplace": "inplace"}[kclass]
+                        for v, gq in zip(np.asarray(R.x_before).ravel(), out):
+                            e = f"i:{int(v)}" if d.kind in "iu" else (f"r:{core.f2b(float(v))}" if d.kind == "f" else f"c:{core.f2b(float(v.real))}:{core.f2b(float(v.imag))}")
+                            gg = (float(gq.real), float(gq.imag)) if out.dtype.kind == "c" else (float(gq), 0.0)
+                            ask(["c17.fovalue", mr, fk, d.kind, d.itemsize, e, core.f2b(float(f)), core.f2b(float(o))], ("value", mr + ":" + fk + ":offset", d.name, f"{x0}->{b or sysname} {v}", out.dtype, gg))
